@@ -50,8 +50,10 @@ def oracle_counts(dense, trajs, lag, S, sliding):
     return obs
 
 
-def counts_job(lengths, lag, S, sliding=True, form='ragged', explicit=True, order=None, dtype='int64'):
+def counts_job(lengths, lag, S, sliding=True, form='ragged', explicit=True, order=None, dtype='int64', nsym=None):
     # dtype: element type of the state assignments (narrow integer types are common for state ids)
+    # nsym: long trajectories - only nsym evenly spaced frames per trajectory are symbolic, the others are state 0 (the count of
+    #       the pair (0, 0) then exceeds every narrow integer range although no single trajectory is long)
     dt = np.dtype(dtype)
     tm = loader.load('enspara.msm.transition_matrices')
     ra = loader.load('enspara.ra.ra')
@@ -68,7 +70,11 @@ def counts_job(lengths, lag, S, sliding=True, form='ragged', explicit=True, orde
         return np.array(padded, dtype=dt) if concrete else funcs.np_array(padded, dtype=dt)
 
     def path(ctx):
-        trajs = [[core.fresh_int('s', 0, S - 1) for _ in range(n)] for n in lengths]
+        if nsym:
+            trajs = [[(core.fresh_int('s', 0, S - 1) if (t % max(1, n // nsym) == 0 and t // max(1, n // nsym) < nsym) else 0)
+                      for t in range(n)] for n in lengths]
+        else:
+            trajs = [[core.fresh_int('s', 0, S - 1) for _ in range(n)] for n in lengths]
         if not explicit:
             # inferred number of states = largest id + 1: make state S-1 occur so that the oracle size is S
             flat = [x for tr in trajs for x in tr]
@@ -83,8 +89,8 @@ def counts_job(lengths, lag, S, sliding=True, form='ragged', explicit=True, orde
             exc = e
 
         def witness(model):
-            cv = [[int(ev(model, x)) for x in tr] for tr in trajs]
-            out = {'inputs': {'trajectories': cv, 'lag': lag, 'max_n_states': S if explicit else None,
+            cv = [[int(ev(model, x)) if isinstance(x, SVal) else int(x) for x in tr] for tr in trajs]
+            out = {'inputs': {'trajectories': cv if not nsym else [tr[:8] + ['...'] for tr in cv], 'lengths': lengths, 'lag': lag, 'max_n_states': S if explicit else None,
                               'sliding_window': sliding, 'form': form, 'element_type': str(dt)}}
             with core.concrete_mode():
                 try:
@@ -149,4 +155,10 @@ def jobs(tier):
     for form_ in ('ragged', 'padded'):
         add('[2, 3],lag=1,S=12,int8,%s' % form_, lengths=(2, 3), lag=1, S=12, sliding=True, form=form_, dtype='int8')
     add('[3],lag=1,S=12,int8,ragged', lengths=(3,), lag=1, S=12, sliding=True, form='ragged', dtype='int8')
+    # many frames, few of them symbolic: one pair occurs more often than any 8-bit (and, thorough: 16-bit) integer can hold although
+    # every single trajectory is short - the count table must not be accumulated in a type sized by one trajectory
+    add('[100, 100, 100],lag=1,S=2,2 symbolic frames each,padded', lengths=(100, 100, 100), lag=1, S=2, sliding=True, form='padded', nsym=2)
+    add('[120, 90, 70],lag=2,S=2,2 symbolic frames each,ragged', lengths=(120, 90, 70), lag=2, S=2, sliding=True, form='ragged', nsym=2)
+    if not q:
+        add('[30000, 30000, 9000],lag=1,S=2,1 symbolic frame each,padded', lengths=(30000, 30000, 9000), lag=1, S=2, sliding=True, form='padded', nsym=1)
     return J
